@@ -14,6 +14,7 @@
 package io
 
 import (
+	"errors"
 	"time"
 
 	"github.com/modern-go/reflect2"
@@ -76,6 +77,16 @@ func (enc *Encoder) writeTimePart(hour int, min int, sec int, nsec int) {
 
 func (enc *Encoder) writeTime(t time.Time) {
 	year, month, day := t.Date()
+	if year < 0 || year > 9999 {
+		// the format has exactly four year digits
+		if enc.Error == nil {
+			enc.Error = errors.New("hprose/io: year outside of range [0,9999]")
+		}
+		enc.buf = append(enc.buf, TagDate)
+		enc.buf = append(enc.buf, "00010101"...)
+		enc.buf = append(enc.buf, TagSemicolon)
+		return
+	}
 	hour, min, sec := t.Clock()
 	nsec := t.Nanosecond()
 	if (hour == 0) && (min == 0) && (sec == 0) && (nsec == 0) {
